@@ -140,6 +140,12 @@ def check_function(chk, f, maskname="Smask", specname="S"):
     n_ordered = 0
     for st, block, idx, val in stores:
         if not (isinstance(idx, ast.Subscript) and isinstance(idx.slice, ast.Slice)):
+            if isinstance(idx, ast.Slice) and not (idx.lower is None and idx.upper is None):
+                # selection by *position* in the stored block: `mask[block][K:] = False`
+                chk.bad("D1", (f, st), st, f"`{A.short(st, 70)}` discards values by their position in storage, not by their size: the block is not "
+                        f"sorted through an argsort index array, so the kept values are the first stored ones — the largest only if the caller "
+                        f"happens to supply a descending block")
+                n_ordered += 1
             # whole-block / whole-array stores: `= False` when K == 0 (D3), nothing to order
             continue
         order = o.order_of(idx.value, at=st)
@@ -396,6 +402,9 @@ def run(chk):
             chk.verdict("D5", (f, c), c, True if (from_mask and ok_axes) else False,
                         f"{name}: apply_mask is not applied with one axis per factor by the mask returned from truncation_mask")
 
+    from . import e6 as _e6
+    chk.rule("WH", "ordering key per `which` (LM/SM/LR/SR): truncation keeps, and the backend lists first, the values the option names", floor=8)
+    _e6.run_WH(chk, "WH")
     from . import e10
     e10.run_U(chk, ("yastn.tensor.linalg",), floor1=5, floor2=1)
 
